@@ -5,9 +5,12 @@
 
 pub mod backoff;
 pub mod balancer;
+pub mod batch;
 pub mod codec;
+pub mod egress;
 pub mod engine;
 pub mod ingress;
+pub mod ingress_driver;
 pub mod router;
 pub mod rpq;
 pub mod sec;
